@@ -149,7 +149,7 @@ PROPS["C05"] = {
              "group names chosen to collide under a naive key (\"a b\"+\"c\" vs \"a\"+\"b c\", empty names), existing / unknown / expired / deleted groups, both views; storage is "
              "mutated between requests (commits, broker updates, deletions, expiry by time shifting); the cache clock is frozen before each request and advanced by ageing "
              "the entries (hook) by k*1000+8 ms; after a request answered from a cached error the background refresh is awaited. The Spec oracle flags hits that differ from a fresh "
-             "evaluation when the lifetime is 0 (known finding D16). Non-trivial = a reply other than NOTFOUND."),
+             "evaluation when the lifetime is 0 (D16, repaired: the oracle stays armed). Non-trivial = a reply other than NOTFOUND."),
     "trusted": [
         "goswarm.Simple is modelled from its v1.10.0 source as Burrow configures it (good/bad expiry = expire-cache, no stale durations); validated differentially",
         "requests are sequential in the theorems; the concurrent clause (one goroutine per request, exactly one reply each) is runtime behaviour observed on the implementation, not proved",
